@@ -373,12 +373,28 @@ func c05AndX(c *Ctx, w *prove.World) {
 	if fn := p.Func(rel, "AndX", "GetParameters"); fn != nil {
 		e := codec.NewExt(w, fn)
 		var elems []codec.Atom
+		var layouts []string
 		for _, b := range fn.Blocks {
 			if ret, ok := b.Instrs[len(b.Instrs)-1].(*ssa.Return); ok && len(ret.Results) == 1 {
 				elems = e.Seq(ret.Results[0])
+				layouts = append(layouts, codec.Render(elems))
 			}
 		}
 		pos := p.Rel(fn.Pos())
+		// one layout whatever the field values are: a return that replaces a field by a
+		// constant for some values (a "stale offset" cleared when no command follows) does not
+		// carry the field to the wire
+		same := true
+		for _, l := range layouts {
+			if l != layouts[0] {
+				same = false
+			}
+		}
+		if len(layouts) > 1 && !same {
+			r.Fail("andx", "AndX.GetParameters: one layout on every path", pos, "the words depend on the data: "+strings.Join(layouts, "  |  ")+" — some field values are not carried to the wire")
+		} else if len(layouts) > 0 {
+			r.OK("andx", "AndX.GetParameters: one layout on every path", pos, fmt.Sprintf("%d return(s), one layout", len(layouts)))
+		}
 		if len(elems) != 2 {
 			r.Undecided("andx", "AndX.GetParameters", pos, fmt.Sprintf("expected two words, got %s", codec.Render(elems)))
 			return
